@@ -6,6 +6,8 @@ import TraitsVerif.Model.DslDenote
 namespace TraitsVerif.Model.Dsl
 open TraitsVerif
 
+deriving instance DecidableEq for Except
+
 /-! ### forests -/
 
 namespace Forest
@@ -189,6 +191,71 @@ theorem exprWords_toExpr (c : Cst) : ∀ (f : Option Conn),
     intro f
     simp only [toExpr, exprWords, lin, List.map_append]
     rw [ihl, ihr]
+
+
+/-! ### shape of the words: the last atom carries the follower of the whole
+expression, every other atom is followed by a connector -/
+
+def Observer.notifyFlag : Observer → Bool
+  | .named _ n _ => n
+  | .listItems n _ => n
+  | .dictItems n _ => n
+  | .setItems n _ => n
+  | .filtered n _ => n
+
+def Observer.optionalFlag : Observer → Bool
+  | .named _ _ o => o
+  | .listItems _ o => o
+  | .dictItems _ o => o
+  | .setItems _ o => o
+  | .filtered _ _ => false
+
+/-- `w = init ++ [(a, f)]` with every atom of `init` followed by a connector -/
+def WordOk (f : Option Conn) (w : Word) : Prop :=
+  ∃ (init : Word) (a : Atom), w = init ++ [(a, f)] ∧ ∀ x ∈ init, ∃ cn, x.2 = some cn
+
+theorem lin_wordOk (c : Cst) : ∀ f, ∀ w ∈ lin c f, WordOk f w := by
+  induction c with
+  | trait n => intro f w hw; simp [lin] at hw; subst hw; exact ⟨[], _, rfl, by simp⟩
+  | items =>
+    intro f w hw
+    simp [lin] at hw
+    rcases hw with rfl | rfl | rfl | rfl <;> exact ⟨[], _, rfl, by simp⟩
+  | metadata n => intro f w hw; simp [lin] at hw; subst hw; exact ⟨[], _, rfl, by simp⟩
+  | any => intro f w hw; simp [lin] at hw; subst hw; exact ⟨[], _, rfl, by simp⟩
+  | group p ih => intro f w hw; exact ih f w (by simpa [lin] using hw)
+  | ser l cn r ihl ihr =>
+    intro f w hw
+    simp only [lin, cross, List.mem_flatMap, List.mem_map] at hw
+    obtain ⟨p, hp, q, hq, rfl⟩ := hw
+    obtain ⟨ip, ap, rfl, hip⟩ := ihl _ p hp
+    obtain ⟨iq, aq, rfl, hiq⟩ := ihr _ q hq
+    refine ⟨ip ++ [(ap, some cn)] ++ iq, aq, by simp, ?_⟩
+    intro x hx
+    simp only [List.append_assoc, List.mem_append, List.mem_cons, List.not_mem_nil, or_false] at hx
+    rcases hx with hx | rfl | hx
+    · exact hip x hx
+    · exact ⟨cn, rfl⟩
+    · exact hiq x hx
+  | par l r ihl ihr =>
+    intro f w hw
+    simp only [lin, List.mem_append] at hw
+    rcases hw with hw | hw
+    · exact ihl f w hw
+    · exact ihr f w hw
+
+/-- the flag the documentation gives: notify iff not followed by `:` -/
+theorem flag_notify (a : Atom) (f : Option Conn) :
+    (flag (a, f)).notifyFlag = decide (f ≠ some .quiet) := by
+  cases a <;> cases f with
+  | none => rfl
+  | some c => cases c <;> rfl
+
+/-- optional exactly for the four alternatives of `items` -/
+theorem flag_optional (a : Atom) (f : Option Conn) :
+    (flag (a, f)).optionalFlag =
+      (a == .itemsTrait || a == .dictItems || a == .listItems || a == .setItems) := by
+  cases a <;> rfl
 
 /-! ### spellings -/
 
